@@ -8,13 +8,17 @@ struct VfUnitType {
   const int* unit_values;         // their underlying values
   int standard;                   // index (not value) of Standard<U> among the declared enumerators, -1 if not declared
   VfLD (*convert)(VfLD x, int from, int to);        // PhQ::Convert(x, from, to) in the numeric type of the table, indices into the declaration
-  VfLD (*convert_static)(VfLD x, int kind, int u);  // ConvertStatically: kind 0: u -> standard, 1: standard -> u, 2: u -> next declared unit (cyclic)
+  VfLD (*convert_static)(VfLD x, int from, int to);  // ConvertStatically<U, from, to>: every ordered pair of declared units is instantiated
   // container overloads of the free conversion functions.
   //   shape: 0 scalar (in-place only), 1 std::array<N> (N = n, 1..9), 2 std::vector (n elements, 0..32), 3 PlanarVector, 4 Vector, 5 SymmetricDyad, 6 Dyad
-  //   form : 0 Convert (copying), 1 ConvertInPlace, 2 ConvertStatically (requires from or to to be the standard unit; returns -1 otherwise or for unsupported shapes)
+  //   form : 0 Convert (copying), 1 ConvertInPlace, 2 ConvertStatically (instantiated for to == standard, from == standard and to == from + {0,1,2} cyclic; returns -1 otherwise or for unsupported shapes; scalars too)
   //   out: converted values; arg_after: the argument after the call (copying forms must leave it unchanged).  returns the number of values, -1 if not applicable
   int (*convert_container)(int shape, int form, const VfLD* in, int n, int from, int to, VfLD* out, VfLD* arg_after);
+  int (*related_system)(int unit_index);   // RelatedUnitSystem(unit): the underlying value of the system, -1 if absent
+  int (*consistent_unit)(int system_value); // ConsistentUnit<U>(system): the underlying value of the unit
 };
+// the declared enumerators of PhQ::UnitSystem (numeric type 0 registry only)
+extern "C" int vf_systems_count(); extern "C" const char* vf_system_name(int i); extern "C" int vf_system_value(int i);
 extern "C" int vf_units_count_0(); extern "C" const VfUnitType* vf_units_0(int k);
 extern "C" int vf_units_count_1(); extern "C" const VfUnitType* vf_units_1(int k);
 extern "C" int vf_units_count_2(); extern "C" const VfUnitType* vf_units_2(int k);
